@@ -34,7 +34,20 @@ bool reservedFitsKeyword(const char* key){
 	       strncmp("NAXIS", key, 5) == 0 ||
 	       strncmp("PERIOD", key, 6) == 0 ||
 	       strncmp("EXTEND", key, 6) == 0 ||
-	       strncmp("COMMENT", key, 7) == 0);
+	       strncmp("COMMENT", key, 7) == 0 ||
+	       //commentary keywords carry no value, END terminates the header,
+	       //and the remaining ones change how the file itself is interpreted
+	       key[0] == '\0' ||
+	       strcmp("END", key) == 0 ||
+	       strcmp("HISTORY", key) == 0 ||
+	       strcmp("CONTINUE", key) == 0 ||
+	       strcmp("PCOUNT", key) == 0 ||
+	       strcmp("GCOUNT", key) == 0 ||
+	       strcmp("XTENSION", key) == 0 ||
+	       strcmp("EXTNAME", key) == 0 ||
+	       strcmp("BSCALE", key) == 0 ||
+	       strcmp("BZERO", key) == 0 ||
+	       strcmp("BLANK", key) == 0);
 }
 
 uint32_t countAuxKeywords(fitsfile* fits){
